@@ -17,7 +17,8 @@ META = {
         "(at most max_body completions per path where stated); all orderings of deliveries, completions "
         "and idle-poll timers, level-1 scenarios add two events in one loop iteration. Invariant at every "
         "TAKEN event: #taken - #finished <= A+P+1 (finished = the callback coroutine of the message has "
-        "ended, i.e. after its ack). Non-vacuity: the maximum observed must equal A+P+1 in every "
+        "ended and no acknowledgement of it is still in flight). Extra families: acks that return a Task; a broker stream "
+        "that raises between messages. Non-vacuity: the maximum observed must equal A+P+1 in every "
         "configuration. distinct_nontrivial = distinct (A,P,max unfinished) saturation outcomes + terminal logs."
     ),
     "assumptions": [
@@ -49,6 +50,19 @@ def scenarios(tier: str) -> List[Dict[str, Any]]:
         if a + p <= 2:
             out.append({"A": a, "P": p, "N": None, "stream": "infinite", "stop": False, "level": 0, "max_body": 2,
                         "msgs": [{"ack": "async", "gates": ["ack"]} for _ in range(n)]})
+    # ackable messages whose ack callable returns a Task that completes later (not a coroutine)
+    for a, p in ((1, 0), (1, 1), (2, 0)):
+        out.append({"A": a, "P": p, "N": None, "stream": "infinite", "stop": False, "level": 0, "max_body": 3,
+                    "msgs": [{"ack": "future", "gates": ["ack"]} for _ in range(a + p + 3)]})
+    # a broker whose listen() raises (connection lost) between messages: whatever the worker does about
+    # it (the unchanged code stops), the bound must hold
+    for a, p in ((1, 0), (1, 1), (2, 1)):
+        for pos in (1, 2):
+            msgs: List[Dict[str, Any]] = [{} for _ in range(a + p + 5)]
+            msgs[pos] = {"kind": "stream_error"}
+            msgs[pos + 2] = {"kind": "stream_error"}
+            out.append({"A": a, "P": p, "N": None, "stream": "infinite", "stop": False, "level": 0, "max_body": 2, "msgs": msgs,
+                        "no_saturation_required": True})
     l1 = [(1, 0), (1, 1), (2, 0)] if tier == "quick" else [(1, 0), (1, 1), (2, 0), (2, 1), (1, 2), (3, 0)]
     for a, p in l1:
         out.append({"A": a, "P": p, "N": None, "stream": "infinite", "stop": False, "level": 1, "max_body": 2,
@@ -65,6 +79,8 @@ def _shards(tier: str, seed: int) -> List[Any]:
 
 
 def _per(sc: Dict[str, Any], res: Any, acc: Acc) -> None:
+    if sc.get("no_saturation_required"):
+        return
     bound = sc["A"] + sc["P"] + 1
     mx = res.maxima.get("max_unfinished", 0)
     acc.maximum(f"unfinished_A{sc['A']}_P{sc['P']}", mx)
